@@ -1,3 +1,402 @@
 package main
 
-func runCheck(p *Prog, prop, tier string, timeout, workers int, verbose bool) int { return 0 }
+// Property-level driver: select the functions under contract for a property,
+// discharge their obligations, classify failures, write evidence.
+
+import (
+	"encoding/json"
+	"fmt"
+	"os"
+	"path/filepath"
+	"sort"
+	"strconv"
+	"strings"
+	"sync"
+	"time"
+
+	"golang.org/x/tools/go/ssa"
+)
+
+const verifDir = "/verif"
+
+type knownFinding struct {
+	Prop       string
+	Obligation string
+	Text       string
+}
+
+func loadKnownFindings() []knownFinding {
+	var out []knownFinding
+	data, err := os.ReadFile(filepath.Join(verifDir, "known_findings.txt"))
+	if err != nil {
+		return nil
+	}
+	for _, line := range strings.Split(string(data), "\n") {
+		line = strings.TrimSpace(line)
+		if !strings.HasPrefix(line, "finding:") {
+			continue
+		}
+		kf := knownFinding{}
+		rest := strings.TrimSpace(strings.TrimPrefix(line, "finding:"))
+		for _, f := range strings.Fields(rest) {
+			if strings.HasPrefix(f, "property=") {
+				kf.Prop = strings.TrimPrefix(f, "property=")
+			} else if strings.HasPrefix(f, "obligation=") {
+				kf.Obligation = strings.TrimPrefix(f, "obligation=")
+			}
+		}
+		if i := strings.Index(rest, " -- "); i >= 0 {
+			kf.Text = strings.TrimSpace(rest[i+4:])
+		}
+		out = append(out, kf)
+	}
+	return out
+}
+
+type baseline struct {
+	Props map[string][]string `json:"props"`
+}
+
+func loadBaseline() *baseline {
+	b := &baseline{Props: map[string][]string{}}
+	data, err := os.ReadFile(filepath.Join(verifDir, "baseline", "obligations.json"))
+	if err == nil {
+		json.Unmarshal(data, b)
+	}
+	return b
+}
+
+func hasProp(ps []string, p string) bool {
+	for _, x := range ps {
+		if x == p {
+			return true
+		}
+	}
+	return false
+}
+
+// contractsFor returns the repo contracts relevant to a property, sorted.
+func (p *Prog) contractsFor(prop string) []string {
+	var keys []string
+	for k, c := range p.specs.Contracts {
+		if c.Extern || c.Trusted || strings.HasPrefix(k, "iface:") || strings.HasPrefix(k, "functype:") {
+			continue
+		}
+		if prop == "" || hasProp(c.Props, prop) || c.clauseHasProp(prop) {
+			keys = append(keys, k)
+		}
+	}
+	sort.Strings(keys)
+	return keys
+}
+
+func (c *Contract) clauseHasProp(prop string) bool {
+	chk := func(cs []Clause) bool {
+		for _, x := range cs {
+			if hasProp(x.Props, prop) {
+				return true
+			}
+		}
+		return false
+	}
+	if chk(c.Requires) || chk(c.Ensures) || chk(c.Panics) {
+		return true
+	}
+	for _, l := range c.Loops {
+		if chk(l.Invariants) || chk(l.Decreases) {
+			return true
+		}
+	}
+	for _, hs := range c.AtCalls {
+		for _, h := range hs {
+			if hasProp(h.C.Props, prop) {
+				return true
+			}
+		}
+	}
+	return false
+}
+
+type checkOutcome struct {
+	Results    []*FnResult
+	Obls       []*Obligation
+	Missing    []string
+	Violations []string
+	Known      []string
+	Undecided  []string
+}
+
+func runCheck(p *Prog, prop, tier string, timeout, workers int, verbose bool) int {
+	t0 := time.Now()
+	if prop == "" {
+		fmt.Fprintln(os.Stderr, "check: -prop required")
+		return 2
+	}
+	if tier == "thorough" && timeout < 60 {
+		timeout = 60
+	}
+	seed, _ := strconv.Atoi(os.Getenv("VERIF_SEED"))
+	keys := p.contractsFor(prop)
+	out := &checkOutcome{}
+	var mu sync.Mutex
+	var wg sync.WaitGroup
+	sem := make(chan struct{}, 8)
+	results := make([]*FnResult, len(keys))
+	for i, k := range keys {
+		fn := p.funcs[k]
+		if fn == nil {
+			mu.Lock()
+			out.Missing = append(out.Missing, k)
+			mu.Unlock()
+			continue
+		}
+		wg.Add(1)
+		sem <- struct{}{}
+		go func(i int, k string, fn *ssa.Function) {
+			defer wg.Done()
+			defer func() { <-sem }()
+			results[i] = p.verifyFunction(fn, p.specs.Contracts[k])
+		}(i, k, fn)
+	}
+	wg.Wait()
+	for _, r := range results {
+		if r == nil {
+			continue
+		}
+		out.Results = append(out.Results, r)
+		for _, o := range r.Obls {
+			if o.Kind == "reach" || hasProp(o.Props, prop) {
+				out.Obls = append(out.Obls, o)
+			}
+		}
+	}
+	tmp, _ := os.MkdirTemp("", "govc-"+prop)
+	defer os.RemoveAll(tmp)
+	dischargeAll(out.Obls, tmp, timeout, workers)
+
+	known := loadKnownFindings()
+	base := loadBaseline()
+	baseSet := map[string]bool{}
+	for _, n := range base.Props[prop] {
+		baseSet[n] = true
+	}
+	os.MkdirAll(filepath.Join(verifDir, "replay"), 0o755)
+	seenNames := map[string]bool{}
+	discharged, total, reachOK := 0, 0, 0
+	bySolver := map[string]int{}
+	solverTime := 0.0
+	var samples []map[string]any
+	exit := 0
+	for _, o := range out.Obls {
+		seenNames[o.Name] = true
+		solverTime += o.TimeS
+		isKnown := false
+		for _, kf := range known {
+			if kf.Prop == prop && kf.Obligation == o.Name {
+				isKnown = true
+				if !o.ok() {
+					line := fmt.Sprintf("KNOWN-FINDING: property=%s %s -- %s", prop, o.Name, kf.Text)
+					fmt.Println(line)
+					out.Known = append(out.Known, o.Name)
+				} else {
+					// listed finding no longer fails: nothing to report, obligation counts as discharged
+					isKnown = false
+				}
+			}
+		}
+		if isKnown {
+			continue
+		}
+		if o.WantSat && o.ok() {
+			reachOK++
+			continue
+		}
+		total++
+		if o.ok() {
+			discharged++
+			bySolver[o.Solver]++
+			if len(samples) < 12 {
+				samples = append(samples, map[string]any{"obligation": o.Name, "kind": o.Kind, "clause": o.Src, "result": o.Result, "solver": o.Solver, "time_s": round3(o.TimeS)})
+			}
+			continue
+		}
+		// failing obligation
+		if o.WantSat {
+			// vacuity guard: precondition / invariant unsatisfiable
+			rp := writeReplay(prop, o, "vacuous: the assumptions at this point are unsatisfiable (contract or code makes the obligation set empty)")
+			fmt.Printf("VIOLATION property=%s replay=%s no-failing-input-found\n", prop, rp)
+			out.Violations = append(out.Violations, o.Name)
+			exit = 1
+			continue
+		}
+		if o.Result == "sat" {
+			rp, reproduced := replayObligation(p, prop, o)
+			if reproduced {
+				fmt.Printf("VIOLATION property=%s replay=%s\n", prop, rp)
+			} else {
+				fmt.Printf("VIOLATION property=%s replay=%s no-failing-input-found\n", prop, rp)
+			}
+			out.Violations = append(out.Violations, o.Name)
+			exit = 1
+			continue
+		}
+		// unknown / timeout / error
+		if baseSet[o.Name] || len(base.Props[prop]) == 0 {
+			rp := writeReplay(prop, o, "solver returned "+o.Result+" for an obligation that discharges on the unchanged tree")
+			fmt.Printf("VIOLATION property=%s replay=%s no-failing-input-found\n", prop, rp)
+			out.Violations = append(out.Violations, o.Name)
+			exit = 1
+		} else {
+			out.Undecided = append(out.Undecided, o.Name+" ("+o.Result+")")
+		}
+	}
+	// obligations that existed at baseline but vanished (function removed/renamed, contract key dangling)
+	for _, k := range out.Missing {
+		o := &Obligation{Name: k + "#contract-key", Kind: "vacuity", Src: "function under contract not found in the program"}
+		rp := writeReplay(prop, o, "the contract file names a function that no longer exists; its obligations cannot be generated")
+		fmt.Printf("VIOLATION property=%s replay=%s no-failing-input-found\n", prop, rp)
+		out.Violations = append(out.Violations, o.Name)
+		exit = 1
+	}
+	var vanished []string
+	for n := range baseSet {
+		if !seenNames[n] {
+			vanished = append(vanished, n)
+		}
+	}
+	sort.Strings(vanished)
+	for _, r := range out.Results {
+		if len(r.Unsupported) > 0 {
+			out.Undecided = append(out.Undecided, fmt.Sprintf("%s: %s", r.Fn, strings.Join(r.Unsupported, "; ")))
+		}
+	}
+	if len(vanished) > 0 {
+		// A baseline obligation that is no longer generated means the VC changed shape
+		// (renamed clause, removed call site ...). Report it: silence would be vacuity.
+		o := &Obligation{Name: vanished[0], Kind: "vacuity", Src: fmt.Sprintf("%d baseline obligations are no longer generated: %s", len(vanished), strings.Join(firstN(vanished, 8), ", "))}
+		rp := writeReplay(prop, o, "obligations discharged on the unchanged tree are no longer generated from the current source; the property is not re-established for them")
+		fmt.Printf("VIOLATION property=%s replay=%s no-failing-input-found\n", prop, rp)
+		out.Violations = append(out.Violations, o.Name)
+		exit = 1
+	}
+	if total == 0 {
+		fmt.Printf("VIOLATION property=%s replay=%s no-failing-input-found\n", prop, writeReplay(prop, &Obligation{Name: "no-obligations"}, "zero obligations generated (vacuous check)"))
+		exit = 1
+	}
+
+	// evidence
+	var fns []string
+	assume := map[string]bool{}
+	for _, r := range out.Results {
+		fns = append(fns, r.Fn)
+		for _, n := range r.Notes {
+			assume[n] = true
+		}
+	}
+	assume["go/ssa (x/tools v0.29.0) faithfully represents the compiled code; govc's encoding of SSA instructions; the SMT solvers"] = true
+	assume["machine integers are treated as mathematical integers (no overflow modelling)"] = true
+	var al []string
+	for a := range assume {
+		al = append(al, a)
+	}
+	sort.Strings(al)
+	level := "proof"
+	ev := map[string]any{
+		"property_id": prop,
+		"tier":        tier,
+		"seed":        seed,
+		"level":       level,
+		"wall_s":      round3(time.Since(t0).Seconds()),
+		"violations":  len(out.Violations),
+		"assumptions": al,
+		"coverage": map[string]any{
+			"obligations":              total,
+			"discharged":               discharged,
+			"checker_cmd":              fmt.Sprintf("/verif/bin/govc check -prop %s -tier %s (z3-new 5.1.0 | z3 4.8.12 | cvc5 1.0.3 portfolio, %ds/query)", prop, tier, timeout),
+			"trusted_base":             trustedBase(p, out),
+			"functions_under_contract": fns,
+			"discharged_by_backend":    bySolver,
+			"solver_time_s":            round3(solverTime),
+			"vacuity_guards_passed":    reachOK,
+			"known_findings":           out.Known,
+			"undecided":                out.Undecided,
+			"violating_obligations":    out.Violations,
+			"samples":                  samples,
+			"explanation":              "every obligation is generated from the SSA of /repo's current working tree on this run and discharged (unsat) by an SMT back end; counts exclude obligations listed as known findings",
+		},
+	}
+	os.MkdirAll(filepath.Join(verifDir, "evidence"), 0o755)
+	data, _ := json.MarshalIndent(ev, "", " ")
+	os.WriteFile(filepath.Join(verifDir, "evidence", prop+".json"), append(data, '\n'), 0o644)
+	if verbose {
+		for _, r := range out.Results {
+			printResult(r, false)
+		}
+		fmt.Fprintf(os.Stderr, "%s: %d/%d discharged, %d known, %d violations, %d undecided, %.1fs\n", prop, discharged, total, len(out.Known), len(out.Violations), len(out.Undecided), time.Since(t0).Seconds())
+		for _, u := range out.Undecided {
+			fmt.Fprintln(os.Stderr, "  undecided:", u)
+		}
+	}
+	return exit
+}
+
+func firstN(s []string, n int) []string {
+	if len(s) > n {
+		return s[:n]
+	}
+	return s
+}
+
+func round3(f float64) float64 { return float64(int(f*1000+0.5)) / 1000 }
+
+func trustedBase(p *Prog, out *checkOutcome) []string {
+	tb := map[string]bool{}
+	for _, r := range out.Results {
+		for _, n := range r.Notes {
+			if strings.HasPrefix(n, "assumed contract: ") || strings.HasPrefix(n, "extern ") || strings.HasPrefix(n, "interface call ") {
+				tb[n] = true
+			}
+		}
+	}
+	var l []string
+	for k := range tb {
+		l = append(l, k)
+	}
+	sort.Strings(l)
+	return append([]string{"golang.org/x/tools/go/ssa", "govc SSA->SMT encoding", "z3 / cvc5"}, l...)
+}
+
+func safeName(s string) string {
+	var b strings.Builder
+	for _, c := range s {
+		if c >= 'a' && c <= 'z' || c >= 'A' && c <= 'Z' || c >= '0' && c <= '9' || c == '.' || c == '-' || c == '_' || c == '#' {
+			b.WriteRune(c)
+		} else {
+			b.WriteByte('_')
+		}
+	}
+	r := b.String()
+	if len(r) > 150 {
+		r = r[:150]
+	}
+	return r
+}
+
+func writeReplay(prop string, o *Obligation, why string) string {
+	path := filepath.Join(verifDir, "replay", prop+"-"+safeName(o.Name)+".txt")
+	var b strings.Builder
+	fmt.Fprintf(&b, "property: %s\nfailed obligation: %s\nkind: %s\nclause: %s\nposition: %s\nsolver: %s result: %s (%.2fs)\nreason: %s\n\n", prop, o.Name, o.Kind, o.Src, o.Pos, o.Solver, o.Result, o.TimeS, why)
+	if o.Model != "" {
+		b.WriteString("solver output (model of the function's inputs and intermediate values):\n")
+		b.WriteString(trimModelInputs(o.Model))
+	}
+	os.WriteFile(path, []byte(b.String()), 0o644)
+	return path
+}
+
+func trimModelInputs(m string) string {
+	if len(m) > 20000 {
+		return m[:20000] + "\n...[truncated]\n"
+	}
+	return m
+}
